@@ -438,6 +438,9 @@ fn packets_for(rng: &mut Rng, c: &SCloud) -> Vec<String> {
     pk
 }
 
+/// gap size understood by the encoder driver as "make the logical length a multiple of 1020"
+const FIT_GAP: usize = 999_999_937;
+
 fn plan(rng: &mut Rng, sc: &Scene, lib_version: &str) -> Plan {
     // sections: one per cloud, one per image blob/mask, random gaps; random order
     enum Item {
@@ -473,6 +476,18 @@ fn plan(rng: &mut Rng, sc: &Scene, lib_version: &str) -> Plan {
     for i in (1..items.len()).rev() {
         let j = rng.below(i as u64 + 1) as usize;
         items.swap(i, j);
+    }
+    // end-fit layouts (a quarter): a point-cloud section is the LAST thing in the file and ends
+    // exactly at the end of the last page's payload (no trailing unused bytes); the encoder sizes
+    // the marked gap accordingly, the XML lies before the last section
+    let mut end_fit = false;
+    if rng.chance(1, 4) {
+        if let Some(ci) = items.iter().rposition(|it| matches!(it, Item::Cloud(k) if !sc.clouds[*k].points.is_empty())) {
+            let c = items.remove(ci);
+            items.push(c);
+            items.insert(0, Item::Gap(FIT_GAP));
+            end_fit = true;
+        }
     }
     let mut sections: Vec<String> = vec![];
     let mut cloud_sec: Vec<usize> = vec![0; sc.clouds.len()];
@@ -698,7 +713,7 @@ fn plan(rng: &mut Rng, sc: &Scene, lib_version: &str) -> Plan {
         x.out.push('\n');
     }
     let xml = x.out;
-    let xml_pos = rng.below(sections.len() as u64 + 1) as usize;
+    let xml_pos = if end_fit { rng.below(sections.len() as u64) as usize } else { rng.below(sections.len() as u64 + 1) as usize };
     Plan { sections, xml, xml_pos }
 }
 
